@@ -142,7 +142,7 @@ func toWorld(sw *SWorld, refs map[int]string, own map[int]string) *world.World {
 				wi.Data = "see " + strings.Join(ment, " ")
 			}
 		case "staticset":
-			if len(it.Merge) == 0 {
+			if len(it.Merge) == 0 && len(ment) == 0 {
 				wi.Children = it.Children
 			} else {
 				// verif/world has no mergeSets: write the static-set JSON ourselves
@@ -153,14 +153,25 @@ func toWorld(sw *SWorld, refs map[int]string, own map[int]string) *world.World {
 				for _, c := range it.Merge {
 					gs = append(gs, ref(c))
 				}
-				j, _ := json.MarshalIndent(map[string]any{"camliVersion": 1, "camliType": "static-set",
-					"members": ms, "mergeSets": gs}, "", " ")
+				doc := map[string]any{"camliVersion": 1, "camliType": "static-set", "members": ms, "mergeSets": gs}
+				if len(ment) > 0 {
+					doc["parts"] = strayParts(ment) // a link field of ANOTHER blob type: not a link of a static set
+				}
+				j, _ := json.MarshalIndent(doc, "", " ")
 				wi.Kind = "chunk"
 				wi.Data = string(j)
 			}
 		case "dir":
 			wi.Children = it.Children
 			wi.Name = fmt.Sprintf("d%d", it.ID)
+			if len(ment) > 0 && len(it.Children) > 0 {
+				// a directory that also carries a "parts" array (the link field of file/bytes blobs) naming the
+				// mentioned refs: for a directory that is not a link
+				j, _ := json.MarshalIndent(map[string]any{"camliVersion": 1, "camliType": "directory", "fileName": wi.Name,
+					"entries": ref(it.Children[0]), "parts": strayParts(ment)}, "", " ")
+				wi.Kind = "chunk"
+				wi.Data = string(j)
+			}
 		default:
 			fatal("unknown item kind", it.Kind)
 		}
@@ -168,6 +179,14 @@ func toWorld(sw *SWorld, refs map[int]string, own map[int]string) *world.World {
 	}
 	w.Normalize()
 	return w
+}
+
+func strayParts(refs []string) []map[string]any {
+	ps := []map[string]any{}
+	for _, r := range refs {
+		ps = append(ps, map[string]any{"blobRef": r, "size": 1})
+	}
+	return ps
 }
 
 // buildWorld iterates world.Build until the refs embedded in contents are the refs of the
@@ -644,10 +663,17 @@ func randomWorld(rng *rand.Rand, name string) SWorld {
 					it.Merge = append(it.Merge, c)
 				}
 			}
+			if rng.Intn(3) == 0 {
+				it.Mention = []int{pick(any)}
+			}
 			add(it)
 		case k == 6:
 			if ss := ofKind("staticset"); len(ss) > 0 {
-				add(SItem{Kind: "dir", Children: []int{pick(ss)}})
+				it := SItem{Kind: "dir", Children: []int{pick(ss)}}
+				if rng.Intn(2) == 0 {
+					it.Mention = []int{pick(any)}
+				}
+				add(it)
 			}
 		case k == 7 || k == 8 || k == 9:
 			it := SItem{Kind: "share", Target: pick(any), Transitive: rng.Intn(3) != 0}
@@ -715,6 +741,8 @@ func randomReq(rng *rand.Rand, sw *SWorld, w int) SReq {
 			it := sw.Items[cur-1]
 			if len(ch) == 1 && it.Kind == "share" && it.Target != 0 {
 				next = it.Target
+			} else if len(it.Mention) > 0 && rng.Intn(3) == 0 {
+				next = it.Mention[0]
 			} else if ls := linksOf(it); len(ls) > 0 {
 				next = ls[rng.Intn(len(ls))]
 			} else if len(it.Mention) > 0 && rng.Intn(2) == 0 {
